@@ -89,7 +89,12 @@ func report(c *core.Ctx, fam string, corpus *pipe.Corpus) {
 						}
 					}
 				}
-				c.Violation(fmt.Sprintf("C01 uncompilable-design diag=%q %s", abstract(stripPos(d.BuildDiags[0])), feat),
+				var ds []string
+				for _, l := range d.BuildDiags {
+					ds = append(ds, abstract(stripPos(l)))
+				}
+				sort.Strings(ds)
+				c.Violation(fmt.Sprintf("C01 uncompilable-design diag=%q %s", ds[0], feat),
 					fmt.Sprintf("generated code of design %s does not compile: %s", key, strings.Join(d.BuildDiags, " | ")), cs, nil)
 			}
 		}
